@@ -111,7 +111,12 @@ def wrapper_case(which, lib, via_str):
 
         stubs = [(r'^%s::<' % inner if True else '', stub_inner), (r'^%s$' % ppname, stub_pp),
                  (r'^(parse_sv_pp|parse_lib_pp|preprocess_str::<|preprocess::<)', stub_other)]
-        res, ex, f = A.run_wrapper((name,), args_fn, stubs, check)
+        def env(it):
+            # a wrapper that opens the file itself (instead of handing the path to preprocess) meets the symbolic file system
+            fs = models_pp.SymFS()
+            fs.add('dir/p.sv', CONTENTS + [None], z3.Bool('exists_p'))
+            it.env['fs'] = fs
+        res, ex, f = A.run_wrapper((name,), args_fn, stubs, check, env_fn=env)
         return summarize('wrappers', name, res, ex, t0, 'flags symbolic; callee args compared by parameter name')
     return Case('wrapper/' + name, work)
 
@@ -122,6 +127,12 @@ PROBES = [
     ('sv', 'module a; endmodule\nmodule\n', {}),
     ('lib', '// lib comment\nlibrary l1 a.v; /* x */\n`include "missing.map"\n', {}),
     ('lib', 'library l2 b.v;\ninclude c.map\n', {}),
+    # a header that exists only next to the top file (not in the working directory, not in an include path)
+    ('sv', 'module s; endmodule\n`include "hdr.svh"\n', {'sub/hdr.svh': 'module h; endmodule\n'}, 'sub/top.sv'),
+    ('lib', 'library l3 c.v;\n`include "hdr.map"\n', {'sub/hdr.map': 'library l4 d.v;\n'}, 'sub/top.sv'),
+    # a top file that is not valid UTF-8 (file entry points only)
+    ('sv', b'module u; endmodule // caf\xe9\n', {}),
+    ('lib', b'library l5 e.v; // caf\xe9\n', {}),
 ]
 
 
@@ -139,22 +150,27 @@ def native_diff(model):
 def _native_diff1(ign, inc, strip):
     from native import Scratch
     nat = E.native()
-    for kind, content, files in PROBES:
+    for probe in PROBES:
+        kind, content, files = probe[:3]
+        top = probe[3] if len(probe) > 3 else 'top.sv'
         fl = dict(files)
-        fl['top.sv'] = content
+        fl[top] = content
+        binary = isinstance(content, bytes)
         with Scratch(fl) as sc:
-            base = {'cwd': sc.dir, 'path': 'top.sv', 'defines': {}, 'include_paths': [], 'ignore_include': ign, 'allow_incomplete': inc,
+            base = {'cwd': sc.dir, 'path': top, 'defines': {}, 'include_paths': [], 'ignore_include': ign, 'allow_incomplete': inc,
                     'lib': kind == 'lib', 'want': ['leaves', 'skeleton']}
             outs = {}
-            for entry in ('file', 'str', 'pp_file', 'pp_str'):
-                q = dict(base, cmd='parse', entry=entry, text=content, strip_comments=False)
+            for entry in (('file', 'pp_file') if binary else ('file', 'str', 'pp_file', 'pp_str')):
+                q = dict(base, cmd='parse', entry=entry, text='' if binary else content, strip_comments=False)
                 r = nat.request(q, cache=False)
                 outs[entry] = json.dumps({k: r.get(k) for k in ('ok', 'leaves', 'skeleton', 'error')}, sort_keys=True)
             if len(set(outs.values())) > 1:
-                return {'probe': content, 'flags': {'ignore_include': ign, 'allow_incomplete': inc}, 'outputs': {k: v[:300] for k, v in outs.items()}}
+                return {'probe': repr(content), 'flags': {'ignore_include': ign, 'allow_incomplete': inc}, 'outputs': {k: v[:300] for k, v in outs.items()}}
+            if binary:
+                continue
             # preprocess(path) vs preprocess_str(contents)
-            pa = nat.request({'cmd': 'preprocess', 'cwd': sc.dir, 'mode': 'file', 'path': 'top.sv', 'defines': {}, 'strip_comments': strip, 'ignore_include': ign}, cache=False)
-            pb = nat.request({'cmd': 'preprocess', 'cwd': sc.dir, 'mode': 'str', 'text': content, 'path': 'top.sv', 'defines': {}, 'strip_comments': strip, 'ignore_include': ign}, cache=False)
+            pa = nat.request({'cmd': 'preprocess', 'cwd': sc.dir, 'mode': 'file', 'path': top, 'defines': {}, 'strip_comments': strip, 'ignore_include': ign}, cache=False)
+            pb = nat.request({'cmd': 'preprocess', 'cwd': sc.dir, 'mode': 'str', 'text': content, 'path': top, 'defines': {}, 'strip_comments': strip, 'ignore_include': ign}, cache=False)
             ka = json.dumps({k: pa.get(k) for k in ('ok', 'text', 'origins', 'error')}, sort_keys=True)
             kb = json.dumps({k: pb.get(k) for k in ('ok', 'text', 'origins', 'error')}, sort_keys=True)
             if ka != kb:
